@@ -30,7 +30,7 @@ def cfg(tier):
     return ["SPECIFICATION Spec", "CONSTANTS",
             f" SXs <- {'SXQ' if q else 'SXT'}", f" SYs <- {'SYQ' if q else 'SYT'}", f" Overlaps <- {'OvQ' if q else 'OvT'}",
             f" Alphas <- {'AlQ' if q else 'AlAll'}", " Fams <- FamAll", f" Pcas <- {'PcaQ' if q else 'PcaAll'}",
-            " Dtypes <- DBoth", " Wides <- WBoth", *[f"INVARIANT {i}" for i in INV], "CHECK_DEADLOCK FALSE"]
+            " Dtypes <- DBoth", " Wides <- WBoth", " TLabs <- TAll", *[f"INVARIANT {i}" for i in INV], "CHECK_DEADLOCK FALSE"]
 
 
 def evaluate(i, scn):
